@@ -2,7 +2,7 @@
     Property theorems only, about the per-window methods REGENERATED from the source (Gen/GenScalars.v;
     translation validated by correspondence K5).  [eql] is elementwise equality of rationals. *)
 From Coq Require Import QArith List Bool String.
-From IV Require Import QL Dist Ecdf QListFacts GenUtils GenScalars C03_proofs.
+From IV Require Import QL NP Dist Ecdf QListFacts GenWindows GenUtils GenScalars C03_proofs LinInverse C03_cdft Driver Driver_rel ApplyLocation_units FixedPoint_windows.
 Import ListNotations.
 Open Scope Q_scope.
 
@@ -66,3 +66,64 @@ Theorem C03_qm_param_fix : forall (P : Type) (D : dist P) t h x,
   exists out, qm_standard_qm "parametric" D t x h h = Some out /\ eql out x.
 Proof. exact @qm_param_fix. Qed.
 Print Assumptions C03_qm_param_fix.
+
+(** CDFt (default methods: interpolated ECDF, linear quantile): with cm_hist equal to obs value for value and
+    tie-free samples of at least two values, the mapping F_fut^-1 o F_hist o F_obs^-1 o F_fut is the identity on
+    the future sample.  Rests on the two inverse laws of the interpolated pair, proved for every tie-free sample. *)
+Theorem C03_interpolated_ecdf_quantile_inverse : forall s, strictQ s -> (2 <= List.length s)%nat ->
+  (forall p, 0 <= p <= 1 -> ecdf_lin_sorted s (iecdf_sorted linear s p) == p) /\
+  (forall y, In y s -> iecdf_sorted linear s (ecdf_lin_sorted s y) == y).
+Proof. intros s Hs Hn. split; [exact (ecdf_iecdf_lin s Hs Hn)|exact (iecdf_ecdf_lin_at_sample s Hs Hn)]. Qed.
+Print Assumptions C03_interpolated_ecdf_quantile_inverse.
+
+Theorem C03_cdft_fix : forall obs hist fut,
+  eql obs hist -> strictQ (qsort obs) -> (2 <= List.length obs)%nat -> strictQ (qsort fut) -> (2 <= List.length fut)%nat ->
+  exists out, cdft_apply_mapping "additive" linear_interpolation linear obs hist fut = Some out /\ eql out fut.
+Proof. exact cdft_fixed_point. Qed.
+Print Assumptions C03_cdft_fix.
+
+Example C03_cdft_nonvacuous :
+  let o := [3; 1 # 2; 7; 5] in let f := [9; 2; 4] in
+  strictQ (qsort o) /\ strictQ (qsort f) /\
+  match cdft_apply_mapping "additive" linear_interpolation linear o o f with
+  | Some out => forallb (fun p => Qeq_bool (fst p) (snd p)) (combine out f) = true
+  | None => False
+  end.
+Proof.
+  cbv zeta. split; [|split].
+  - vm_compute. repeat constructor.
+  - vm_compute. repeat constructor.
+  - vm_compute. reflexivity.
+Qed.
+
+(** ---- through apply_location with a running window over the year (Model/Driver.v over the REGENERATED
+    window functions), for every window length / step and calendar: if the per-window method returns the
+    future slice of every window it is given unchanged, apply_location returns cm_future unchanged, at every
+    time step.  Instantiated at LinearScaling and at CDFt (cm_hist = obs value for value on the same time
+    axis; for CDFt tie-free window samples of at least two values). *)
+Theorem C03_fixed_point_through_windows : forall L S, (0 < S)%Z -> (S <= L)%Z -> (S mod 2 = 1)%Z ->
+  forall dobs dhist dfut obs hist fut, (forall d, In d dfut -> (1 <= d <= 366)%Z) -> List.length fut = List.length dfut ->
+  forall W : list Q -> list Q -> list Q -> list Q,
+  (forall ci, In ci (days_use S dfut) ->
+     eql (W (slice_o L dobs obs (fst ci)) (slice_h L dhist hist (fst ci)) (slice_f L dfut fut (fst ci))) (slice_f L dfut fut (fst ci))) ->
+  exists out, driver_rw Q L S dobs dhist dfut obs hist fut W = Some out /\ List.length out = List.length fut /\
+    forall k, (k < List.length fut)%nat -> exists v, nth k out None = Some v /\ v == nth k fut 0.
+Proof. exact fixed_point_through_windows. Qed.
+Print Assumptions C03_fixed_point_through_windows.
+
+Theorem C03_linear_scaling_apply_location : forall L S, (0 < S)%Z -> (S <= L)%Z -> (S mod 2 = 1)%Z ->
+  forall dobs dfut obs hist fut, (forall d, In d dfut -> (1 <= d <= 366)%Z) -> List.length fut = List.length dfut -> eql obs hist ->
+  exists out, driver_rw Q L S dobs dobs dfut obs hist fut (W_ls "additive") = Some out /\ List.length out = List.length fut /\
+    forall k, (k < List.length fut)%nat -> exists v, nth k out None = Some v /\ v == nth k fut 0.
+Proof. exact ls_fixed_point_apply_location. Qed.
+Print Assumptions C03_linear_scaling_apply_location.
+
+Theorem C03_cdft_apply_location : forall L S, (0 < S)%Z -> (S <= L)%Z -> (S mod 2 = 1)%Z ->
+  forall dobs dfut obs hist fut, (forall d, In d dfut -> (1 <= d <= 366)%Z) -> List.length fut = List.length dfut -> eql obs hist ->
+  (forall ci, In ci (days_use S dfut) ->
+     strictQ (qsort (slice_o L dobs obs (fst ci))) /\ (2 <= List.length (slice_o L dobs obs (fst ci)))%nat /\
+     strictQ (qsort (slice_f L dfut fut (fst ci))) /\ (2 <= List.length (slice_f L dfut fut (fst ci)))%nat) ->
+  exists out, driver_rw Q L S dobs dobs dfut obs hist fut (W_cdft linear_interpolation linear) = Some out /\ List.length out = List.length fut /\
+    forall k, (k < List.length fut)%nat -> exists v, nth k out None = Some v /\ v == nth k fut 0.
+Proof. exact cdft_fixed_point_apply_location. Qed.
+Print Assumptions C03_cdft_apply_location.
